@@ -461,3 +461,10 @@ func (panicReader) Read(p []byte) (int, error) {
 }
 
 var panicBody = io.NopCloser(panicReader{})
+
+// errNoProtocolSwitch is the error for a 101 response that is not a protocol switch.
+// http.Transport provides a writable body only if the response has an Upgrade header and "Connection: upgrade".
+var errNoProtocolSwitch = ErrorStatus{
+	Err:    errors.New("switching protocols response without protocol upgrade"),
+	Status: http.StatusBadGateway,
+}
